@@ -1,33 +1,41 @@
 import VaxisModel.Props.C15
+import VaxisModel.Lemmas.VxfwPrefix
 
-/-! F43: the Run loop answers a terminal `vaxis.FocusIn` with `root.HandleEvent(MouseEnter{})`
-and does not record it in `mouseHandler.lastHits`. A single-widget application: terminal FocusIn,
-then a mouse event inside the window: the root widget gets MouseEnter twice in a row. Followed
-by FocusOut instead, the MouseEnter is never closed by a MouseLeave. -/
+/-! F43 (fixed in /repo by b1816d3): before the fix the Run loop answered a terminal
+`vaxis.FocusIn` with `root.HandleEvent(MouseEnter{})` without recording it in
+`mouseHandler.lastHits`. A single-widget application: terminal FocusIn, then a mouse event inside
+the window: the root widget got MouseEnter twice in a row. Followed by FocusOut instead, the
+MouseEnter was never closed by a MouseLeave. The same histories on the current model alternate
+and are closed. -/
 namespace VaxisModel.Witness.F43
 open VaxisModel.Model.Vxfw VaxisModel.Spec.Routing VaxisModel.Lemmas.Vxfw VaxisModel.Props.C15
+open VaxisModel.Lemmas
 
 def o : Oracle := ⟨fun _ _ _ _ => .nil, fun _ => false⟩
 def t0 : STree := .node 0 10 10 []
 
-theorem t0_ok : HitsNodup t0 := by
-  intro c r
-  simp only [hitsAt, t0, STree.w, STree.h, hitTest, hitKids]
-  split <;> simp
-
-theorem observed :
-    (runSteps o 4 (runInit o 4 0 t0) [.ev .focusIn, .ev (.mouse 1 1)]).trace =
+/-- Pre-fix code: FocusIn then a mouse event: two MouseEnter in a row. -/
+theorem prefix_observed :
+    (runEvent o 4 (VxfwPrefix.runFocusIn o 4 (runInit o 4 0 t0)) (.mouse 1 1)).trace =
       [.call 0 .init .target, .draw, .call 0 .mouseEnter .target, .call 0 .mouseEnter .target,
        .call 0 (.mouse 1 1) .target] := by decide
 
-theorem never_closed :
-    hoverRun [] (runSteps o 4 (runInit o 4 0 t0) [.ev .focusIn, .ev .focusOut]).trace = some [0] := by decide
-
-theorem hover_alternates_fails : ¬ hover_alternates_full := by
-  intro h
-  have := h o 4 0 t0 [.ev .focusIn, .ev (.mouse 1 1)] t0_ok (by intro st hst; simp at hst; rcases hst with rfl | rfl <;> trivial)
-  rw [observed] at this
-  revert this
+theorem prefix_hover_alternates_fails :
+    hoverRun [] (runEvent o 4 (VxfwPrefix.runFocusIn o 4 (runInit o 4 0 t0)) (.mouse 1 1)).trace = none := by
   decide
+
+/-- Pre-fix code: FocusIn then FocusOut: the Enter is never closed. -/
+theorem prefix_never_closed :
+    hoverRun [] (runEvent o 4 (VxfwPrefix.runFocusIn o 4 (runInit o 4 0 t0)) .focusOut).trace = some [0] := by
+  decide
+
+/-- Current code, same histories. -/
+theorem fixed_observed :
+    (runSteps o 4 (runInit o 4 0 t0) [.ev .focusIn, .ev (.mouse 1 1)]).trace =
+      [.call 0 .init .target, .draw, .call 0 .mouseEnter .target, .call 0 .mouseLeave .target,
+       .call 0 .mouseEnter .target, .call 0 (.mouse 1 1) .target] := by decide
+
+theorem fixed_closed :
+    hoverRun [] (runSteps o 4 (runInit o 4 0 t0) [.ev .focusIn, .ev .focusOut]).trace = some [] := by decide
 
 end VaxisModel.Witness.F43
